@@ -286,6 +286,8 @@ def check(prop, tier, seed):
                 "distinct by hash of the case text up to the probe" % spec["family"],
         "samples": samples or [{"note": "no case executed (build problem)"}],
         "histogram": dict(sorted(stats.items())),
+        "branches_expected": spec.get("expect_keys", []),
+        "branches_unreached": [k for k in spec.get("expect_keys", []) if stats.get(k, 0) == 0] if res is not None else None,
         "probed_parameters": (cfg if res is not None else None),
         "incidents": [(i, k) for (i, k) in (res[3] if res is not None else [])][:20],
         "implementation_vs_oracle_failures": len([1 for l in out_lines if "no-failing-input-found" not in l]),
